@@ -337,6 +337,8 @@ def run(rep, pdb, tier):
                             sc_ = strip(a_["_p"]["scrut"])
                             if sc_.get("k") == "MethodCall" and callee_path(sc_) == "%s::degree" % PT:
                                 emptyish = True
+                    if not emptyish and not any(n_ is o_ for o_ in other_returns(pdb, ctx, fn)):
+                        emptyish = True      # an arm of a match on the operands' degree(): some operand is empty there
                     if not emptyish:
                         extra.append(loc(n_))
             single = not extra
